@@ -50,6 +50,7 @@ func checkC18(c *Ctx, r *Report) {
 	namedStoreRule(c, r, "R18h")
 	numericSiblingsRule(c, r)
 	readSideMetaRule(c, r)
+	parsedTextMetaRule(c, r)
 	r.Rule("R18b", "source plumbing: MetaData stores the address of its Meta copy into options.meta; value constructors on normalize* paths receive opts.meta; error constructors pass their *Meta on towards messageMeta", 20)
 	metaDataRule(c, r)
 	metaReachesValues(c, r, "R18b")
@@ -760,5 +761,69 @@ func readSideMetaRule(c *Ctx, r *Report) {
 		before := !InstrDominates(setValue, setMeta) && !reachableFromEdge(nil, setValue.Block(), setMeta.Block(), nil)
 		r.Check(before, "R18j", c.FnName(sf), "metadata before the store", c.Pos(setMeta.Pos()), "setMeta is not behind SetValue",
 			"setField attaches the MetaData option to the value after SetValue stored it: the intermediate nodes SetValue creates for a dotted name took their metadata from a value that had none yet, and errors about them do not name the source")
+	}
+}
+
+// parsedTextMetaRule (R18k): what parseValue parses out of the text of a value — the list or object a reference, a
+// splice or an environment variable expands to — comes from where that text came from. The nodes below the first
+// level are built by normalize, which stamps them with the metadata of the options it is given (R18b): those have
+// to be a copy of the caller's options whose meta is the primitive's own (`p.meta()` / `p.metadata`), not the
+// options of the call that happens to read the value (whose meta is that of Unpack or of a getter: usually none).
+func parsedTextMetaRule(c *Ctx, r *Report) {
+	r.Rule("R18k", "parseValue normalises the parsed text with options whose metadata is that of the value the text belongs to", 1)
+	pv := c.Func("", "parseValue")
+	norm := c.Func("", "normalize")
+	optT := c.Named("", "options")
+	metaIdx := c.FieldIndex(optT, "meta")
+	var prim *ssa.Parameter
+	for _, p := range pv.Params {
+		if typeStr(p.Type()) == "*ucfg.cfgPrimitive" {
+			prim = p
+		}
+	}
+	calls := CallsTo(pv, norm, false)
+	if len(calls) == 0 || prim == nil {
+		r.add("R18k", c.FnName(pv), "options of normalize", c.Pos(pv.Pos()), Undecided, true, "parseValue does not call normalize, or has no *cfgPrimitive parameter")
+		return
+	}
+	for _, ci := range calls {
+		arg := ci.Common().Args[0]
+		ok, why := false, "the options handed to normalize are not a local copy (the caller's options carry the metadata of the reading call)"
+		if al, isAl := arg.(*ssa.Alloc); isAl {
+			why = "the local options' meta field is never set from the primitive"
+			for _, ref := range *al.Referrers() {
+				fa, isFA := ref.(*ssa.FieldAddr)
+				if !isFA || fa.Field != metaIdx {
+					continue
+				}
+				for _, r2 := range *fa.Referrers() {
+					st, isSt := r2.(*ssa.Store)
+					if !isSt || st.Addr != ssa.Value(fa) {
+						continue
+					}
+					own := false
+					for _, src := range append(Sources(st.Val), st.Val) {
+						switch x := src.(type) {
+						case *ssa.Call:
+							if calledName(x) == "meta" && len(x.Call.Args) > 0 && x.Call.Args[0] == ssa.Value(prim) {
+								own = true
+							}
+						case *ssa.UnOp:
+							if fa2, isFA2 := x.X.(*ssa.FieldAddr); isFA2 && fa2.X == ssa.Value(prim) {
+								if _, f, okF := FieldOf(fa2); okF && f == "metadata" {
+									own = true
+								}
+							}
+						}
+					}
+					if own && (st.Block() == ci.(ssa.Instruction).Block() && InstrDominates(st, ci.(ssa.Instruction)) || st.Block() != ci.(ssa.Instruction).Block() && st.Block().Dominates(ci.(ssa.Instruction).Block())) {
+						ok = true
+					} else if !own {
+						why = "the local options' meta is set from something other than the primitive's own metadata"
+					}
+				}
+			}
+		}
+		r.Check(ok, "R18k", c.FnName(pv), "options of normalize", c.Pos(ci.Pos()), "a local copy of the options with meta = the primitive's metadata", why+": the settings below the first level of a parsed list or object lose their source, and an error about one of them does not name the file")
 	}
 }
